@@ -152,6 +152,19 @@ CLAIMS["C13"] = dict(
     design_ref="DESIGN.md section 4, C13",
     technique="static analysis: lossy-merge detection, index-kind typing, shift counting via algebraic normal forms, constant folding of table formulas, sibling comparison")
 
+CLAIMS["C14"] = dict(
+    category="other",
+    text=("Proof by construction, checked structurally on every statement of DofManager and the assembler: isBc starts all False "
+          "and is set only at (node set, component) of each essential BC; isUnknown is its complement; ids enumerates all dofs; "
+          "unknownIndices/bcIndices select ids with those masks; dofToUnknown is -1 except arange at unknownIndices; create_field "
+          "scatters with exactly the masks the getters gather with; sizes count the same masks; slicing composes mask and map on "
+          "the same slice; Hessian coordinates and mask iterate the same connectivity, the mask clears exactly rows and columns of "
+          "constrained dofs, coordinates go through the map for dofs selected by isUnknown (n^2 per element, tile and transpose), "
+          "and the assembler pairs kValues[mask] with them in an nUnknowns x nUnknowns matrix. NumPy indexing semantics are "
+          "trusted, not mechanised."),
+    design_ref="DESIGN.md section 4, C14",
+    technique="static analysis: mask-provenance / role checking of each attribute definition and method over the AST with reaching definitions")
+
 NA = {}
 
 
